@@ -491,6 +491,98 @@ class CloneResets(Lane):
         return ['all-set'] if d['ctrls'] is not None and d['timeout'] is not None and d['opts'] else []
 
 
+
+class SearchModifiers(Lane):
+    """Ldap::streaming_search_with (no adapters) from its coroutine MIR through SearchStream::start / start_inner /
+    op_call, for every combination of pending controls / timeout / search options on the handle: the Search request
+    carries exactly the controls that were set and the options in its fields, the stream inherits the timeout, and the
+    handle is left with none of the three - they cannot leak into the next operation"""
+    name = 'C02.search_modifiers'
+
+    def inputs(self):
+        c = self.c
+        return {'ctrls': raw_controls(c, 1) if c.choose(2, 'hasctrl') else None, 'timeout': (z3.BitVec('tmo', 64) if c.choose(2, 'hastmo') else None),
+                'opts': ({'deref': c.choose(4, 'deref'), 'typesonly': z3.Bool('typesonly'), 'timelimit': z3.BitVec('tl', 8), 'sizelimit': z3.BitVec('sl', 8)} if c.choose(2, 'hasopts') else None)}
+
+    def execute(self, d):
+        c = self.c
+        tmo = StructV('Duration', [('secs', d['timeout']), ('nanos', z3.BitVecVal(0, 32))]) if d['timeout'] is not None else None
+        o = d['opts']
+        so = StructV('SearchOptions', [('deref', EnumV('DerefAliases', ['Never', 'Searching', 'Finding', 'Always'][o['deref']])), ('typesonly', o['typesonly']), ('timelimit', z3.ZeroExt(24, o['timelimit'])), ('sizelimit', z3.ZeroExt(24, o['sizelimit']))]) if o else None
+        ld, chans = mk_ldap(c, controls=(controls_val(d['ctrls']) if d['ctrls'] is not None else None), timeout=tmo, search_opts=so, last=z3.BitVecVal(7, 32))
+        ack = Ok(Tup([EnumV('Tag', 'Null', [StructV('Null', [('id', bv(5, 64)), ('class', ber.cls(0)), ('inner', UNIT)])]), VecV([])]))
+
+        def send_env(ctx, t, val):
+            t.sent.append(val); return Ok(UNIT)
+        waited = []
+        c.env = {'send': send_env, 'recv_oneshot': lambda ctx, f: (waited.append('rx'), ack)[1], 'timeout': lambda ctx, f: (waited.append('timeout'), Ok(ack))[1]}
+        try:
+            coro = c.run_fn('Ldap::streaming_search_with', [ld, VecV([]), strv(S('dc=x')), EnumV('Scope', 'Subtree'), strv(S('(a=b)')), VecV([strv(S('cn'))])])
+            r = poll_coro(c, coro)
+        finally:
+            c.env = {}
+        return {'poll': r, 'sent': chans['req'][0].sent, 'ld': ld}
+
+    def oracle(self, d, out):
+        if out[0] == 'panic': return [('no panic', FALSE)]
+        o = out[1]; ld = o['ld']; r = o['poll']
+        ok = r.variant == 'Ready' and r.fields[0].variant == 'Ok'
+        obs = [('the search starts: exactly one request is queued', z3.BoolVal(ok and len(o['sent']) == 1))]
+        if not (ok and len(o['sent']) == 1): return obs
+        mid, lop, tag, ctrls, tx = o['sent'][0]
+        want = Some(controls_val(d['ctrls'])) if d['ctrls'] is not None else NONE()
+        obs.append(('exactly the controls set on the handle travel with the search request', eq_term(ctrls, want)))
+        for f in ('controls', 'timeout', 'search_opts'):
+            obs.append((f'{f} set on the handle are consumed by the search: none left for the next operation', z3.BoolVal(ld.fields[f].variant == 'None')))
+        st = deref(r.fields[0].fields[0])
+        if d['timeout'] is not None:
+            obs.append(('the stream inherits the timeout for its item waits', z3.BoolVal(st.fields['timeout'].variant == 'Some') if st.fields['timeout'].variant != 'Some' else deref(st.fields['timeout'].fields[0]).fields['secs'] == d['timeout']))
+        else:
+            obs.append(('no timeout: the stream waits untimed', z3.BoolVal(st.fields['timeout'].variant == 'None')))
+        # options in the request: derefAliases, sizeLimit, timeLimit, typesOnly are children 2..5 of the SearchRequest
+        req = deref(tag); inner = deref(req.fields[0]) if isinstance(req, EnumV) else req
+        try:
+            kids = inner.fields['inner'].items if isinstance(inner, StructV) and 'inner' in inner.fields else None
+        except Exception:
+            kids = None
+        if kids is not None and len(kids) >= 6:
+            g = lambda i: deref(deref(kids[i]).fields[0]).fields['inner']
+            dflt = d['opts'] is None
+            obs.append(('derefAliases / sizeLimit / timeLimit / typesOnly of the request are the options set (defaults otherwise)',
+                        and_all([g(2) == (z3.BitVecVal(0, 64) if dflt else z3.BitVecVal(d['opts']['deref'], 64)), g(3) == (z3.BitVecVal(0, 64) if dflt else z3.ZeroExt(56, d['opts']['sizelimit'])),
+                                 g(4) == (z3.BitVecVal(0, 64) if dflt else z3.ZeroExt(56, d['opts']['timelimit'])), (g(5) == (FALSE if dflt else d['opts']['typesonly']))])))
+        return obs
+
+    def replay_by_role(self, cd, obname, out, m):
+        from .scenarios import script, step, BIND, BIND_OK, ENTRY, okres, stream_start
+        # natively: set the modifiers, run a search to its end, then an unmodified slow operation on the same handle
+        steps = [BIND]
+        if cd['timeout'] is not None: steps.append({'do': 'with_timeout', 'ms': 120})
+        if cd['ctrls'] is not None: steps.append({'do': 'with_controls', 'ctrls': [{'oid': '2.2', 'crit': True, 'val': [7]}]})
+        if cd['opts'] is not None: steps.append({'do': 'with_search_options'})
+        steps += [stream_start([]), {'do': 'next'}, {'do': 'next'}, {'do': 'finish'}, {'do': 'delete', 'dn': 'dc=after'}]
+        case = script(steps, [BIND_OK, {'replies': [{'id': 'req', 'op': ENTRY}, {'id': 'req', 'op': okres(5)}]}, {'delay_ms': 400, 'replies': [{'id': 'req', 'op': okres(11, 9)}]}])
+        nj = native([case])[0]; v = nj['value']
+        dl = step(v, 'delete'); bad = None
+        reqs = v.get('requests') or []
+        last = ber.py_decode(reqs[-1])[0] if reqs else None
+        if not (isinstance(dl, dict) and dl.get('ok', {}).get('rc') == 9): bad = f'the operation after the search returned {json.dumps(dl)[:80]} (a modifier of the search is still armed on the handle)'
+        elif last is not None and len(last['c']) > 2: bad = 'the operation after the search still carries the controls set for the search'
+        return bool(bad), 'search-modifiers-leak', f'modifiers set for a search: {bad}' if bad else None, case, {'native': v['steps']}
+
+    def case(self, cd): return {}
+
+    def summary(self, out, model=None):
+        if out[0] == 'panic': return {'panic': out[1].msg}
+        o = out[1]
+        return {'queued': len(o['sent']), 'left': [f for f in ('controls', 'timeout', 'search_opts') if o['ld'].fields[f].variant != 'None']}
+
+    def in_summary(self, d, model=None):
+        return {'controls': d['ctrls'] is not None, 'timeout': d['timeout'] is not None, 'search options': d['opts'] is not None}
+
+    def regions(self, d, out):
+        return ['+'.join(k for k in ('ctrls', 'timeout', 'opts') if d[k] is not None) or 'none']
+
 def body(chk):
     quick = chk.tier == 'quick'
     run_lane(chk, Envelope, (2 if quick else 3,), bounds={'message ID': 'all of 1..2^31-1', 'controls': 'None | Some(0..%d) with symbolic OID/criticality/value' % (2 if quick else 3), 'protocolOp': 'any tag <= 30, symbolic content'},
@@ -501,6 +593,8 @@ def body(chk):
                                            'message ID': 'all of 1..2^31-1'}, selftest=False, need_regions=tuple(Builders.OPS))
     run_lane(chk, Modifiers, (1 if quick else 2,), bounds={'controls on the handle': 'None | Some(0..%d)' % (1 if quick else 2), 'timeout': 'absent | any u64 seconds', 'counter': 'any'}, selftest=False,
              need_regions=('ctrl', 'noctrl', 'ctrl+tmo', 'noctrl+tmo'))
+    run_lane(chk, SearchModifiers, (), bounds={'pending modifiers': 'every combination of controls (1, symbolic) / timeout (any u64 s) / search options (symbolic)', 'search': 'streaming_search_with without adapters, fixed base/filter/attributes'},
+             selftest=False, need_regions=('none', 'ctrls+timeout+opts'))
     chk.assumptions += [
         'lane B2: the async builders are executed from their coroutine MIR up to the call of Ldap::op_call; op_call itself up to the reply wait, with tokio channel/timer calls as environment stubs (send records, timeout/recv answer Pending)',
         'filters inside SearchRequest come from one template; the filter grammar is C08. SET OF values are compared as multisets (hash iteration order is a nondeterministic permutation)',
